@@ -119,7 +119,7 @@ func loadAndReport(t *traceWriter, file string, data []byte) {
 
 func scenarioConfig(t *traceWriter, rng *rand.Rand) {
 	loadAndReport(t, "logs.yaml", omniwitness.ConfigLogs)
-	if b, err := os.ReadFile("/repo/omniwitness/logs_test.yaml"); err == nil {
+	if b, err := os.ReadFile(repoRoot() + "/omniwitness/logs_test.yaml"); err == nil {
 		loadAndReport(t, "logs_test.yaml", b)
 	} else {
 		t.line("CFM file=logs_test.yaml n=0 => aslogmap=err:unreadable feeders=0")
@@ -242,4 +242,12 @@ func newSessionKnown(t *traceWriter, storeKind string, defs []*logDef, wk []witK
 	s.w = w
 	s.prerecord = true
 	return s
+}
+
+// repoRoot is the tree under check (VERIF_REPO, default /repo).
+func repoRoot() string {
+	if r := os.Getenv("VERIF_REPO"); r != "" {
+		return r
+	}
+	return "/repo"
 }
